@@ -432,6 +432,49 @@ pub fn evaluate(plan: &Plan, rec: &RunRecord, st: &mut Stats) {
                 with(json!({"conn": c.idx, "role": c.role, "events": events_about(port, &ids), "full_plan": plan.to_json()})));
         }
     }
+    // rule 3d: once the coordinator has told the workers (the listeners were dropped before that), the drain is in
+    // progress until `coordinator_end`: a connect() that starts in between (with a margin after `workers_told`: the
+    // sockets are closed when the acceptor yields to its executor for the first time) must be refused
+    if graceful {
+        const MARGIN_US: u64 = 25_000;
+        let closed = ev.iter().filter(|e| e.kind == "listener_closed").map(at).min_by_key(|a| a.seq);
+        if closed.is_some_and(|l| l.seq < c_e.seq) {
+            st.count("rule3_listener_closed_before_drain_ended", 1);
+            if let Some(l) = closed {
+                st.maxi("max_listener_close_after_workers_told_us", l.t.saturating_sub(told.t));
+            }
+        } else {
+            st.violation(json!({"rule": "listener_open_until_drain_ended", "class": "listener_closed_after_coordinator_end"}),
+                with(json!({"coordinator_wait_ms": coord_ms, "events": events_about(None, &[]), "full_plan": plan.to_json()})));
+        }
+        let mut connected: Vec<Value> = Vec::new();
+        for c in &plan.conns {
+            let Some(cb) = connect_begin.get(&(c.idx as u64)).copied() else { continue };
+            if !(cb.seq > told.seq && cb.t >= told.t + MARGIN_US && cb.seq < c_e.seq) {
+                continue;
+            }
+            let Some(res) = rec.results.iter().find(|r| r.idx == c.idx) else { continue };
+            match &res.connect {
+                Connect::Refused => st.bump("connect_during_drain", "refused"),
+                Connect::Ok(p) => {
+                    st.bump("connect_during_drain", "connected");
+                    connected.push(json!({"conn": c.idx, "role": c.role, "client_port": p, "connect_began_us_after_workers_told": cb.t - told.t,
+                        "then": res.reqs.first().map(|x| x.1.name())}));
+                }
+                _ => st.bump("connect_during_drain", "other_error"),
+            }
+        }
+        if !connected.is_empty() {
+            let detail = with(json!({"connected": connected, "coordinator_wait_ms": coord_ms,
+                "listener_closed_us_after_workers_told": closed.map(|l| l.t as i64 - told.t as i64),
+                "events": events_about(None, &[]), "full_plan": plan.to_json()}));
+            if rec.lag_ms < 15 {
+                st.violation(json!({"rule": "connection_accepted_during_drain", "class": "connect_after_listeners_dropped"}), detail);
+            } else {
+                st.inconc("a connect() succeeded during the drain, on a loaded machine", detail);
+            }
+        }
+    }
     st.count("rule3_connections_opened_after_resolution", late_checked);
     st.count("rule3_connections_not_taken_before_command", classes.get("not_accepted").copied().unwrap_or(0) + classes.get("accepted_not_taken").copied().unwrap_or(0));
 
